@@ -540,7 +540,7 @@ def known_mechs(pid):
     return out
 
 
-def attribute(model, o, passes, fired_in, known=()):
+def attribute(model, o, passes, fired_in, known=(), prefer=None):
     """Which fired mechanism is necessary for the failure?
 
     `passes(m2) -> bool` re-judges a re-optimized model.  A failure is attributed to a *known-defective*
@@ -567,10 +567,13 @@ def attribute(model, o, passes, fired_in, known=()):
 
     kn = [f for f in fired if is_known(f)]
     if kn and trial(kn):
-        for name in kn:
-            if trial([name]):
+        # several listed mechanisms may each be necessary (a fold that creates an untyped node AND the pass that then keeps
+        # it): name the one whose listed finding is of this failure's kind (`prefer`), else the first in priority order
+        singles = [name for name in kn if trial([name])]
+        for name in singles:
+            if prefer is not None and prefer(name):
                 return name
-        return kn[0]
+        return singles[0] if singles else kn[0]
     rest = [f for f in fired if not is_known(f)]
     for name in rest:
         if trial(kn + [name]):
